@@ -511,6 +511,13 @@ def gen_constraint(rng, h, nvars):
         return ("sub", x, tgt, rng.random() < 0.3)
     if r < 0.45 and nvars > 1:
         return ("sub", x, ("v", rng.randrange(nvars)), rng.random() < 0.3)
+    if r < 0.52:
+        # a variable against a compound target: unify(skip_basic) binds x to a
+        # skeleton of fresh variables
+        comp = [o for o in h.ids if h.arity(o) >= 1]
+        o = rng.choice(comp)
+        tgt = ("o", o, [rng.choice([("o", rng.choice(base), []), ("w",)]) for _ in range(h.arity(o))])
+        return ("sub", x, tgt, False) if rng.random() < 0.6 else ("sub", tgt, x, False)
     nalt = rng.randint(1, 4)
     alts = []
     for _ in range(nalt):
@@ -596,6 +603,46 @@ def gen_program(rng, h, constrained=True):
         prog.append(("apply", cur, argi, True))
         cur = nvals
         nvals += 1
+    return prog
+
+
+def gen_misc_program(rng, h):
+    """Programs that reach the less travelled branches of Type.apply and of
+    above/below: applying a variable, Top or a non-function, Top/Bottom as
+    arguments at contravariant positions, unify/fix on arbitrary values."""
+    base = list(range(5, 5 + h.nbase))
+    prog = []
+    r = rng.random()
+    if r < 0.3:
+        # apply a wildcard (a variable) to something, then use the result
+        prog = [("inst", (0, ("w",), [])), ("inst", (0, ("o", rng.choice(base + [0, 1]), []), [])),
+                ("apply", 0, 1, rng.random() < 0.7)]
+        if rng.random() < 0.5:
+            prog += [("inst", (0, ("o", rng.choice(base), []), [])), ("apply", 2, 3, True)]
+    elif r < 0.45:
+        f = rng.choice([("o", 0, []), ("o", rng.choice(base), []), ("o", 2, [])])
+        prog = [("inst", (0, f, [])), ("inst", (0, ("o", rng.choice(base), []), [])), ("apply", 0, 1, True)]
+    else:
+        x = ("v", 0)
+        ctxs = [lambda t: t, lambda t: ("o", 3, [t, ("o", base[0], [])]), lambda t: ("o", 3, [("o", base[0], []), t])]
+        ks = [rng.choice(ctxs) for _ in range(rng.randint(2, 3))]
+        body = x
+        for k in reversed(ks):
+            body = ("o", 3, [k(x), body])
+        prog = [("inst", (1, body, []))]
+        cur, n = 0, 1
+        for k in ks:
+            a = ("o", rng.choice(base + [0, 0, 1, 1]), [])
+            prog += [("inst", (0, k(a), [])), ("apply", cur, n, True)]
+            cur, n = n + 1, n + 2
+    nvals = sum(1 for c in prog if c[0] in ("inst", "apply", "fix"))
+    for _ in range(rng.choice([0, 1, 2])):
+        q = rng.random()
+        if q < 0.5:
+            prog.append(("unify", rng.randrange(nvals), rng.randrange(nvals), rng.random() < 0.7))
+        else:
+            prog.append(("fix", rng.randrange(nvals), rng.random() < 0.5))
+            nvals += 1
     return prog
 
 
